@@ -44,6 +44,28 @@ pub fn specs() -> Vec<PropSpec> {
                 mutation).",
             assumptions: COMMON_ASSUMPTIONS,
         },
+        PropSpec {
+            id: "C05",
+            parts: &[("c05", 480, 6000)],
+            level: "exploration",
+            tags: &["C05"],
+            rule: "Each evaluation is one seeded history in which about a \
+                third of the configuration requests are deliberately \
+                invalid in one way (prefix or AS not held or only partially \
+                held, invalid max length, duplicate with the same comment, \
+                removal of an absent entry, empty/duplicate providers, \
+                customer as provider, corrupted CSR signature, child \
+                entitled to nothing or to resources the parent lacks), \
+                issued against whatever CA state the history has reached. \
+                For every ROA/ASPA/BGPsec/child request the model's verdict \
+                (computed from the certificates the CA has received) must \
+                equal Krill's; a refusal must leave configuration views, \
+                the CA's stored object set and the repository \
+                byte-identical and add exactly one error record to the \
+                audit log; an acceptance must be fully visible. \
+                Non-trivial/distinct as for C01.",
+            assumptions: COMMON_ASSUMPTIONS,
+        },
     ]
 }
 
